@@ -105,6 +105,8 @@ class Interp:
         self.inlined: set[str] = set()
         self.contract_calls: set[str] = set()
         self.extern_calls: set[str] = set()
+        self.top_label = None
+        self.local_loops = {}  # loop annotations registered by the contract being verified
         self.on_call = {}  # dotted name -> callback(args dict) executed before a call (ghost monitors)
         self.yield_hook = None
 
@@ -587,7 +589,7 @@ class Interp:
         if is_bool_term(v):
             return simp(z3.If(v, 1, 0))
         if isinstance(v, SEnum) and (v.cls.enum["int"]):
-            return self.as_int(v.value)
+            return self.as_int(v.value if v.int_value is None else v.int_value)
         raise EngineError(f"not an int: {v!r}")
 
     def is_intlike(self, v):
@@ -1026,9 +1028,15 @@ class Interp:
         self._call_node = node
         return self.call_value(fn, args, kwargs)
 
+    def name_of(self, fi):
+        """Name used in obligation names for a function: the contract label for the function under verification."""
+        if self.top is not None and fi.ref == self.top.ref and self.top_label:
+            return self.top_label
+        return fi.dotted
+
     def site(self, short_name):
         """Obligation name prefix for the current call site of an external / builtin callee."""
-        caller = self.frames[-1].fi.dotted if self.frames else "<top>"
+        caller = self.name_of(self.frames[-1].fi) if self.frames else "<top>"
         return f"{caller}/call[{short_name}#{self.call_ordinal(None, short_name)}]"
 
     def call_ordinal(self, callee_fi, name=None):
@@ -1199,15 +1207,21 @@ class Interp:
                 for n, mv in members:
                     if mv == v:
                         return SEnum(cls, v, n)
-                if cls.enum["flag"] or cls.enum["custom_missing"]:
+                if cls.enum["flag"]:
                     return SEnum(cls, v)
+                if cls.enum["custom_missing"]:
+                    return SEnum(cls, v, int_value=None if cls.enum.get("missing_keeps_int", True) else 0)
                 self.raise_("ValueError")
             if cls.enum["flag"]:
                 if self.branch(Z(v) < 0):
                     raise OutOfReach("negative flag value")
                 return SEnum(cls, v)
             if cls.enum["custom_missing"]:
-                return SEnum(cls, v)
+                if cls.enum.get("missing_keeps_int", True):
+                    return SEnum(cls, v)
+                vals = sorted({mv for _, mv in members})
+                is_member = self._or([simp(Z(v) == m) for m in vals])
+                return SEnum(cls, v, int_value=simp(z3.If(Z(is_member), Z(v), 0)))
             vals = sorted({mv for _, mv in members})
             is_member = self._or([simp(Z(v) == m) for m in vals])
             if not self.branch(is_member):
